@@ -214,7 +214,8 @@ def main():
     nprog = 150 if tier == "quick" else 2500
     items += wasmgen.programs("int", nprog, SEED, args_per_prog=5 if tier == "quick" else 8)
     builds = [{"name": "gcc-O1", "cc": "gcc", "cflags": ("-O1",)},
-              {"name": "gcc-O1-nobuiltin", "cc": "gcc", "cflags": ("-O1", "-D__has_builtin(x)=0")}]
+              # no bit-counting builtins, and plain char unsigned as in the ARM / PowerPC ABIs (two independent axes in one build)
+              {"name": "gcc-O1-nobuiltin-uchar", "cc": "gcc", "cflags": ("-O1", "-D__has_builtin(x)=0", "-funsigned-char")}]
     # clang selects other builtins than gcc in the runtime header
     builds.append({"name": "clang-O2", "cc": "clang", "cflags": ("-O2",)})
     # for this very machine (whatever instruction-set extensions it has: lzcnt, bmi, popcnt, ... select other code paths)
